@@ -28,7 +28,6 @@ Definition finding_of (site : string) : string :=
   else if String.eqb site site_keylist_debug then "key-list-limit-unwrap"
   else if String.eqb site site_ghost_key then "ghost-request-no-key"
   else if String.eqb site site_ghost_overflow then "ghost-request-id-max-overflow"
-  else if String.eqb site site_gt_len then "gt-tx-payload-len"
   else "?".
 
 Definition rep (n : N) (st : state) (now idx : N) (e : event) (expect : N) (finding : string) : state * bool :=
